@@ -508,6 +508,7 @@ var (
 	Notes   []string
 	Paid    int64
 	Held    []*store.Node
+	Pad     []string
 )
 
 func Relay(cur realm, tag string) int {
@@ -560,6 +561,25 @@ func ReleaseAll(cur realm) int {
 	return n
 }
 
+// GrowBoth grows this realm and the store realm by about the same number of bytes in one message.
+func GrowBoth(cur realm, n int) int {
+	for i := 0; i < n; i++ {
+		Pad = append(Pad, "yyyyyyyyyyyyyyyyyyyyyyyyyyyyyyyyyyyyyyyy"+strconv.Itoa(len(Pad)))
+	}
+	return store.BigGrow(cross(cur), n) + len(Pad)
+}
+
+func ShrinkPad(cur realm, n int) int {
+	if n > len(Pad) {
+		n = len(Pad)
+	}
+	Pad = Pad[:len(Pad)-n]
+	if len(Pad) == 0 {
+		Pad = nil
+	}
+	return len(Pad)
+}
+
 func Pay(cur realm, to string, amt int64) int64 {
 	b := banker.NewBanker(banker.BankerTypeRealmSend, cur)
 	b.SendCoins(cur.Address(), address(to), chain.Coins{chain.NewCoin("ugnot", amt)})
@@ -586,7 +606,7 @@ func Dump() string {
 	if Seen != nil {
 		s += " seen=" + strconv.Itoa(Seen.ID) + ":" + Seen.Tag
 	}
-	s += " held=["
+	s += " pad=" + strconv.Itoa(len(Pad)) + " held=["
 	for _, n := range Held {
 		s += strconv.Itoa(n.ID) + ":" + n.Tag + ","
 	}
